@@ -17,6 +17,16 @@ BUILT = {
             'real/complex/integer entries and integer dtype, constructor fills) in both modes; judged by an independent dense contraction before/after, '
             'isometry of every site tensor, unit norm, bond bounds, sparsity masks, unchanged outer charges and idempotence.',
             'dense reach d^L <= 4096; 1e-11 relative tolerance', '4 (C01)'),
+    'C03': ('Hypothesis random search over expression trees and operand families; differential oracle = same expression on independent dense forms',
+            'Exploration: generated expression trees (depth <= 3) over MPS/MPO sums, differences, products, operator application and identity, binary '
+            'operations with non-zero boundary charges and operator shifts, sparse-vs-dense matrix form, from_vector round trips and merge-after-split; '
+            'every result is contracted independently (tensordot) and compared with the expression evaluated on dense operands.',
+            'dense reach d^L <= 1024; 1e-11 relative to the product of site-tensor norms', '4 (C03)'),
+    'C04': ('Hypothesis random search over path-sharing (bra, operator, ket, density) quadruples; dense-algebra oracle, projection identity for local operators',
+            'Exploration: scalars (vdot with conjugation side, norm, operator_average, operator_inner_product, operator_density_average) are compared with dense algebra on '
+            'operands constructed to give non-zero values; one-, two- and zero-site effective operators at every position are compared with the projection of the '
+            'dense operator between embedded states and tested for Hermiticity.',
+            'dense reach d^L <= 1024; 1e-11 relative to the product of site-tensor norms', '4 (C04)'),
     'C12': ('Hypothesis random search over designed-spectrum block matrices and boundary tolerances; independent dense-SVD oracle',
             'Exploration: generated block-sparse matrices with designed spectra (decaying, degenerate within/across blocks, rank deficient), '
             'tolerances at 0, random and exactly on cumulative weights, plus two-site tensor splits with all three distributions; judged against numpy '
